@@ -121,6 +121,13 @@ def run : List Step → State → Option State
     | none => none
     | some s' => run p s'
 
+/-- the state in which a call ends: after the last step, or where a step RAISED (unbound name, write to a read-only buffer) -/
+def runUntil : List Step → State → State
+  | [], s => s
+  | st :: p, s => match step s st with
+    | none => s
+    | some s' => runUntil p s'
+
 /-- static check: every in-place write goes through a variable that is known to live in a buffer
 allocated by the routine itself (`fresh`), following aliases created by `view` -/
 def safe : List Step → List Nat → Bool
